@@ -38,6 +38,22 @@ func TestNode(t *testing.T) {
 	if v, err := strconv.Atoi(os.Getenv("SIMNODE_HANG_S")); err == nil && v > 0 {
 		hangS = v
 	}
+	if seg.NoSim {
+		res := &Result{Verdict: "done"}
+		for _, ph := range seg.Phases {
+			var pr [][]CallResult
+			for _, prog := range ph {
+				out := make([]CallResult, len(prog))
+				for i := range prog {
+					execCall(&prog[i], nil, nil, &out[i])
+				}
+				pr = append(pr, out)
+			}
+			res.Results = append(res.Results, pr)
+		}
+		writeResult(res)
+		os.Exit(0)
+	}
 	var progress atomic.Int64
 	// real-time watchdog, outside the bubble
 	go func() {
